@@ -17,6 +17,8 @@
 import BB.Model.Describe
 import BB.Proofs.Basic
 import BB.Proofs.Heap
+import BB.Proofs.G8Examples
+import BB.Proofs.G8Value08
 
 namespace BB.C08
 open BB
@@ -107,5 +109,170 @@ theorem heap_readonly (hist later : List Call) (ty : String) (y : Addr)
     (hro : ∀ c ∈ later, ∃ t p, c = Call.query t p) (n : Nat) :
     unfold n (later.foldl State.call (hist.foldl State.call {})).heap y = unfold n (hist.foldl State.call {}).heap y :=
   readonly_unobservable hist later ty y hy hro n
+
+/-! ### the reference level, for the library's own programs: no call faults (G8)
+
+`heap_query_frame` / `heap_readonly` above hold for every program, but say nothing useful about a
+program that breaks the ownership discipline (it *faults*, and then nothing changes).  The theorems
+below are about the programs that model broadbean's methods (`BB.Heap.LibCall`, one constructor
+per method program of BB.Model.Heap, made on user-held variables): on a *shaped* state
+(`BB.Heap.Shaped`: `Inv`, every cell holds what its kind allows, every variable points to a
+BluePrint / Element / Sequence graph of bounded nesting) a call whose guard holds
+(`LibCall.ok`: live variables of the right class, existing channel / position where the Python
+raises `KeyError`) does not fault and leaves the state shaped.  Proofs: BB/Proofs/G8*.lean. -/
+
+open BB.Heap in
+/-- the empty state is shaped, and a guarded library call — a read-only one (`elValidate` for
+    `validateDurations` and the queries built on it, `sqForge` for `forge` and the output
+    methods) or any other — keeps a shaped state shaped; in particular **it does not fault** -/
+theorem heap_lib_step (st : State) (c : LibCall) (hs : Shaped st) (hok : c.ok st = true) :
+    Shaped (c.run st) ∧ (c.run st).fault = false :=
+  ⟨lib_step st c hs hok, (lib_step st c hs hok).nofault⟩
+
+open BB.Heap in
+example : Shaped (runLib {} exLibB) ∧ (LibCall.sqForge 14 "s").ok (runLib {} exLibB) = true :=
+  ⟨(lib_history exLibB exLibB_guarded).1, by decide +kernel⟩
+
+open BB.Heap in
+/-- **the read-only programs never fault on shaped states**: `forge` / the output methods on a
+    variable bound to a sequence, `validateDurations` / `SR` / `points` / `duration` on a variable
+    bound to an element — no further hypothesis — run through `State.query` without fault, keep the
+    state shaped and leave everything observable of *every* user-held object (the receiver
+    included) exactly as it was -/
+theorem heap_query_nofault (st : State) (hs : Shaped st) (tok : Nat) (t : String) :
+    (st.isVar t .sqObj = true →
+      ((LibCall.sqForge tok t).run st).fault = false ∧ Shaped ((LibCall.sqForge tok t).run st) ∧
+      ∀ p ∈ st.vars, ∀ n, unfold n ((LibCall.sqForge tok t).run st).heap p.2 = unfold n st.heap p.2) ∧
+    (st.isVar t .elObj = true →
+      ((LibCall.elValidate tok t).run st).fault = false ∧ Shaped ((LibCall.elValidate tok t).run st) ∧
+      ∀ p ∈ st.vars, ∀ n, unfold n ((LibCall.elValidate tok t).run st).heap p.2 = unfold n st.heap p.2) := by
+  constructor
+  · intro hv
+    have h1 := lib_step st (.sqForge tok t) hs hv
+    refine ⟨h1.nofault, h1, ?_⟩
+    intro p hp n
+    obtain ⟨cy, hcy⟩ := hs.inv.live p hp
+    obtain ⟨x, c, hl, hc, hk⟩ := isVar_spec hv
+    simp only [LibCall.run, LibCall.toCall, State.call, hl]
+    exact query_frame st hs.inv x _ p.2 cy hcy n
+  · intro hv
+    have h1 := lib_step st (.elValidate tok t) hs hv
+    refine ⟨h1.nofault, h1, ?_⟩
+    intro p hp n
+    obtain ⟨cy, hcy⟩ := hs.inv.live p hp
+    obtain ⟨x, c, hl, hc, hk⟩ := isVar_spec hv
+    simp only [LibCall.run, LibCall.toCall, State.call, hl]
+    exact query_frame st hs.inv x _ p.2 cy hcy n
+
+open BB.Heap in
+example : (runLib {} exLibB).isVar "s" .sqObj = true ∧ (runLib {} exLibB).isVar "e" .elObj = true := by
+  decide +kernel
+
+open BB.Heap in
+/-- **no history of guarded library calls ever faults**, and its final state is shaped -/
+theorem heap_lib_history (cs : List LibCall) (hg : guarded {} cs = true) :
+    Shaped (runLib {} cs) ∧ (runLib {} cs).fault = false := lib_history cs hg
+
+open BB.Heap in
+example : guarded {} exLibC = true := exLibC_guarded
+
+open BB.Heap in
+/-- **read-only histories, for the library's programs, without a no-fault assumption**: after
+    any guarded history of library calls, any guarded interleaving of read-only library calls —
+    forging / output / queries / validation, on whichever objects, in whichever order — does not
+    fault and leaves everything observable of every user-held object unchanged -/
+theorem heap_lib_readonly (hist later : List LibCall) (hg : guarded {} (hist ++ later) = true)
+    (hro : ∀ c ∈ later, c.isQuery = true) (ty : String) (y : Addr) (hy : (ty, y) ∈ (runLib {} hist).vars) (n : Nat) :
+    (runLib {} (hist ++ later)).fault = false ∧
+    unfold n (runLib {} (hist ++ later)).heap y = unfold n (runLib {} hist).heap y :=
+  lib_readonly hist later hg hro ty y hy n
+
+open BB.Heap in
+example : guarded {} (exLibB ++ [.sqForge 14 "s", .elValidate 15 "e", .sqForge 16 "s"]) = true ∧
+    (∀ c ∈ [LibCall.sqForge 14 "s", .elValidate 15 "e", .sqForge 16 "s"], c.isQuery = true) ∧
+    ("s", 26) ∈ (runLib {} exLibB).vars := by decide +kernel
+
+/-! ### the time-axis option of `forge` only adds the time field (G8, value level) -/
+
+/-- **`forge(…, includetime=True)` and `forge(…, includetime=False)` differ only in the time
+    field**: for every sequence and every combination of the other options they raise the same
+    exception, or succeed alike and the results agree once the time information
+    (`C08V.eraseTime`: the `time` component of every forged channel and of every raw-array
+    record, at every position, also inside subsequences) is erased -/
+theorem forge_time_only (s : Sequence) (d f : Bool) :
+    (s.forge d f true).map C08V.eraseTime = s.forge d f false ∧
+    (∀ e, s.forge d f true = .error e ↔ s.forge d f false = .error e) ∧
+    (∀ out, s.forge d f true = .ok out → s.forge d f false = .ok (C08V.eraseTime out)) ∧
+    (∀ out, s.forge d f false = .ok out → ∃ out2, s.forge d f true = .ok out2 ∧ C08V.eraseTime out2 = out) :=
+  ⟨C08V.forge_time_erase s d f, C08V.forge_time_error_iff s d f, C08V.forge_time_ok s d f,
+    C08V.forge_notime_ok s d f⟩
+
+example : (C08V.exSeq.forge true true true).toOption.isSome = true := by decide +kernel
+
+/-- what the erasure keeps of a forged channel: waveform, markers, flags, filter annotation -/
+theorem forge_time_keeps (c : ChOutF) (w : Nat) :
+    Sequence.chWave (C08V.eraseF c) = Sequence.chWave c ∧ Sequence.chMarker (C08V.eraseF c) w = Sequence.chMarker c w ∧
+    Sequence.chFlags (C08V.eraseF c) = Sequence.chFlags c ∧ (C08V.eraseF c).filt = c.filt := C08V.eraseF_keeps c w
+
+/-- the element-level version holds for every validated element … -/
+theorem getArrays_time_only (e : Element) (m : Val × Rat) (h : e.validate = .ok m) :
+    (e.getArrays true).map C08V.eraseArrays = e.getArrays false := C08V.getArrays_time_validated e m h
+
+example : (⟨[(.int 1, { data := .arr [("wfm", [1, 2])] (.num 1) })], none⟩ : Element).validate = .ok (.num 1, 2) := by
+  decide +kernel
+
+/-- … and is FALSE without validation: a raw-array channel whose sample rate is not a number
+    delivers its arrays without the time axis but raises `TypeError` with it -/
+theorem getArrays_time_unvalidated_differs :
+    (⟨[(.int 1, { data := .arr [("wfm", [1, 2])] .none })], none⟩ : Element).getArrays true = .error .type ∧
+    (⟨[(.int 1, { data := .arr [("wfm", [1, 2])] .none })], none⟩ : Element).getArrays false =
+      .ok [(.int 1, .arrays [("wfm", [1, 2])] none none)] := C08V.getArrays_time_unvalidated_counterexample
+
+/-! ### validation caches of stored elements are unobservable at the sequence level (G8) -/
+
+/-- **sequences whose stored elements differ only in their validation caches** (`C08V.CacheEq`:
+    same positions in the same order, same sequencing, settings and name, entries equal once the
+    cache of every element — also inside stored subsequences — is wiped) **give the same result
+    for every read-only operation**: forge under every option combination, description,
+    consistency verdict, points, duration, channels, `==` on either side, and the three output
+    methods -/
+theorem caches_unobservable (s1 s2 : Sequence) (h : C08V.CacheEq s1 s2) (d f t : Bool) (o : Sequence) :
+    s1.forge d f t = s2.forge d f t ∧ s1.toDesc = s2.toDesc ∧
+    s1.checkConsistency = s2.checkConsistency ∧ s1.points = s2.points ∧ s1.duration = s2.duration ∧
+    s1.channels = s2.channels ∧ s1.beq o = s2.beq o ∧ o.beq s1 = o.beq s2 ∧
+    s1.prepareForOutputting = s2.prepareForOutputting ∧
+    s1.outputForAWGFile = s2.outputForAWGFile ∧ s1.outputForSEQXFile = s2.outputForSEQXFile ∧
+    s1.outputForSEQXFileWithFlags = s2.outputForSEQXFileWithFlags := C08V.cacheEq_unobservable s1 s2 h d f t o
+
+example : C08V.CacheEq C08V.exSeq C08V.exSeqCached := rfl
+
+/-- the relation spelled out -/
+theorem cacheEq_spelled (s1 s2 : Sequence) :
+    C08V.CacheEq s1 s2 ↔
+      List.Forall₂ (fun a b => a.1 = b.1 ∧ C08V.dropCacheEntry a.2 = C08V.dropCacheEntry b.2) s1.data s2.data ∧
+      s1.sequencing = s2.sequencing ∧ s1.awgspecs = s2.awgspecs ∧ s1.name = s2.name := C08V.cacheEq_iff s1 s2
+
+/-- validating a stored element (the one read-only call that writes) keeps the sequence in its
+    class: nothing any read-only operation returns can change -/
+theorem validate_stored_unobservable (s : Sequence) (pos : Int) (e : Element) :
+    C08V.CacheEq { s with data := Dict.upsert s.data pos (.el (e.validateDurations).st) }
+      { s with data := Dict.upsert s.data pos (.el e) } := C08V.validate_stored_cacheEq s pos e
+
+/-- what `addElement` stores (the element with its cache filled) is indistinguishable, by every
+    read-only operation of the sequence, from the element stored with any other cache -/
+theorem addElement_cache_unobservable (s : Sequence) (pos : Int) (e : Element) (m : Val × Rat)
+    (hv : e.validate = .ok m) (c : Option (Val × Rat)) (d f t : Bool) (o : Sequence) :
+    let stored := (s.addElement pos e).st
+    let other : Sequence := { s with data := Dict.upsert s.data pos (.el { e with cache := c })
+                                     sequencing := Dict.upsert s.sequencing pos Sequence.defaultSeqEl }
+    stored.forge d f t = other.forge d f t ∧ stored.toDesc = other.toDesc ∧
+    stored.checkConsistency = other.checkConsistency ∧ stored.points = other.points ∧
+    stored.duration = other.duration ∧ stored.channels = other.channels ∧
+    stored.beq o = other.beq o ∧ o.beq stored = o.beq other ∧
+    stored.outputForAWGFile = other.outputForAWGFile ∧ stored.outputForSEQXFile = other.outputForSEQXFile :=
+  C08V.addElement_cache_unobservable s pos e m hv c d f t o
+
+example : (⟨[(.int 1, { data := .arr [("wfm", [1, 2])] (.num 1) })], none⟩ : Element).validate = .ok (.num 1, 2) := by
+  decide +kernel
 
 end BB.C08
